@@ -1,0 +1,23 @@
+//go:build verif
+
+package udp
+
+import (
+	"net"
+
+	"github.com/fatedier/frp/verif"
+)
+
+// C17 "decoding the encoding yields an equal message", UDP payloads: the text
+// NewUDPPacket puts in the message decodes back to exactly the datagram, and
+// the addresses travel unchanged. (Library axiom used: base64 decoding inverts
+// base64 encoding of the same alphabet; listed in the evidence.)
+//
+//verif:lemma
+//verif:props C17
+func verif_udp_payload_round_trip(buf []byte, laddr, raddr *net.UDPAddr) {
+	m := NewUDPPacket(buf, laddr, raddr)
+	back, err := GetContent(m)
+	verif.Assert(err == nil && verif.Same(back, buf), "payload_decodes_to_the_datagram")
+	verif.Assert(m.LocalAddr == laddr && m.RemoteAddr == raddr, "addresses_unchanged")
+}
